@@ -530,6 +530,18 @@ func c11NoDoubleWrap(c *Ctx, br *callBridge) {
 					zeroOK = true
 				}
 			}
+			// ... or through locals (a result temporary, a phi of the two argument forms)
+			instrs(h, func(_ *ssa.BasicBlock, _ int, x ssa.Instruction) {
+				st, ok := x.(*ssa.Store)
+				if !ok || st.Val.Type().String() != "reflect.Value" {
+					return
+				}
+				for _, rt := range plainOrigins.Roots(st.Val) {
+					if rt.Kind == "call" && rt.V == ssa.Value(call) && len(rt.Path) == 0 && !rt.Conv {
+						zeroOK = true
+					}
+				}
+			})
 		}
 	})
 	c.R.Check(rule, "null-argument-zero-value", c.P.Pos(h.Pos()), zeroOK, "a null argument must be passed as reflect.Zero(<parameter type>) itself")
@@ -754,12 +766,14 @@ func sameExpr(a, b ssa.Value) bool {
 	return false
 }
 
-func c11ErrorWrap(c *Ctx, br *callBridge) {
-	const rule = "C11.error-wrap"
+func c11ErrorWrap(c *Ctx, br *callBridge) { c11ErrorWrapAs(c, br, "C11.error-wrap") }
+
+func c11ErrorWrapAs(c *Ctx, br *callBridge, rule string) {
 	h := br.H
 	// results[1].IsNil() false edge: err = fmt.Errorf(..., name, inner.Error())
 	wrapOK := false
 	nameOK := false
+	wrapCalls := map[*ssa.Call]bool{}
 	instrs(h, func(b *ssa.BasicBlock, i int, in ssa.Instruction) {
 		call, ok := in.(*ssa.Call)
 		if !ok {
@@ -795,6 +809,7 @@ func c11ErrorWrap(c *Ctx, br *callBridge) {
 				if rt.Kind == "call" && rt.Fn == nil {
 					if ic, ok := rt.V.(*ssa.Call); ok && ic.Call.IsInvoke() && ic.Call.Method.Name() == "Error" {
 						wrapOK = true
+						wrapCalls[call] = true
 					}
 				}
 			}
@@ -809,12 +824,12 @@ func c11ErrorWrap(c *Ctx, br *callBridge) {
 			return
 		}
 		for _, rt := range plainOrigins.Roots(ret.Results[1]) {
-			if rt.Kind == "call" && rt.Fn != nil && rt.Fn.String() == "fmt.Errorf" {
+			if wc, ok := rt.V.(*ssa.Call); ok && rt.Kind == "call" && wrapCalls[wc] {
 				retOK = true
 			}
 		}
 	})
-	c.R.Check(rule, "returned", c.P.Pos(h.Pos()), retOK, "the wrapped error must be returned")
+	c.R.Check(rule, "returned", c.P.Pos(h.Pos()), retOK, "the error that wraps the host function's error must be what the handler returns on that path (built and then dropped - e.g. assigned to a shadowing variable - the call succeeds with a zero value)")
 	// result count checked
 	cnt := false
 	instrs(h, func(b *ssa.BasicBlock, i int, in ssa.Instruction) {
@@ -854,7 +869,21 @@ func c11KindTables(c *Ctx) {
 				return
 			}
 			if g.Signature.Params().At(0).Type().String() == "reflect.Kind" && isBoolType(g.Signature.Results().At(0).Type()) {
-				pred = g
+				// the one whose positive answer leads to the converter (other kind tests may sit in the same function)
+				guards := false
+				for _, ref := range *call.Referrers() {
+					if iff, isIf := ref.(*ssa.If); isIf {
+						for _, cc := range callsTo(f, conv) {
+							t := iff.Block().Succs[0]
+							if t == cc.Block() || t.Dominates(cc.Block()) {
+								guards = true
+							}
+						}
+					}
+				}
+				if guards || pred == nil {
+					pred = g
+				}
 			}
 		})
 	}
@@ -1274,6 +1303,16 @@ func (c *Ctx) walkEdge(b *ssa.BasicBlock, k int, r *FoldResult, avoid ssa.Instru
 					return nnNonNil
 				}
 			}
+		case *ssa.UnOp:
+			// an element of the diagnostics list: the recorder appends only diagnostics it has just built
+			// (C01.diag-implies-error: recorder-appends), so an element that exists is not nil
+			if ia, ok := x.X.(*ssa.IndexAddr); ok && x.Op == token.MUL {
+				for _, rt := range plainOrigins.Roots(ia.X) {
+					if len(rt.Path) > 0 && (rt.Path[len(rt.Path)-1] == "Diagnostics" || rt.Path[0] == "Diagnostics") {
+						return nnNonNil
+					}
+				}
+			}
 		}
 		return nnUnknown
 	}
@@ -1347,13 +1386,57 @@ func (c *Ctx) walkEdge(b *ssa.BasicBlock, k int, r *FoldResult, avoid ssa.Instru
 						}
 					}
 				}
-				if take >= 0 {
-					return walk(cur, cur.Succs[take], ne, st, depth+1)
+				// what each edge says about the value tested against nil
+				refine := func(k int) env {
+					bo, ok := x.Cond.(*ssa.BinOp)
+					if !ok || (bo.Op != token.EQL && bo.Op != token.NEQ) {
+						return ne
+					}
+					var other ssa.Value
+					if isNilConst(bo.Y) {
+						other = bo.X
+					} else if isNilConst(bo.X) {
+						other = bo.Y
+					}
+					if other == nil {
+						return ne
+					}
+					e2 := env{}
+					for k2, v := range ne {
+						e2[k2] = v
+					}
+					if (bo.Op == token.EQL) == (k == 0) {
+						e2[other] = nnNil
+					} else {
+						e2[other] = nnNonNil
+					}
+					return e2
 				}
-				return walk(cur, cur.Succs[0], ne, st, depth+1) && walk(cur, cur.Succs[1], ne, st, depth+1)
+				if take >= 0 {
+					return walk(cur, cur.Succs[take], refine(take), st, depth+1)
+				}
+				return walk(cur, cur.Succs[0], refine(0), st, depth+1) && walk(cur, cur.Succs[1], refine(1), st, depth+1)
 			}
 		}
 		return false
 	}
-	return walk(b, b.Succs[k], env{}, 0, 0)
+	start := env{}
+	if iff, ok := b.Instrs[len(b.Instrs)-1].(*ssa.If); ok {
+		if bo, ok := iff.Cond.(*ssa.BinOp); ok && (bo.Op == token.EQL || bo.Op == token.NEQ) {
+			var other ssa.Value
+			if isNilConst(bo.Y) {
+				other = bo.X
+			} else if isNilConst(bo.X) {
+				other = bo.Y
+			}
+			if other != nil {
+				if (bo.Op == token.EQL) == (k == 0) {
+					start[other] = nnNil
+				} else {
+					start[other] = nnNonNil
+				}
+			}
+		}
+	}
+	return walk(b, b.Succs[k], start, 0, 0)
 }
